@@ -361,7 +361,11 @@ func (r *transport) handleCacheHit(
 	if swr, swrValid := ccResp.StaleWhileRevalidate(); freshness.IsStale && swrValid {
 		age := internal.SaturatingAdd(freshness.Age.Value, r.clock.Since(freshness.Age.Timestamp))
 		staleFor := age - freshness.UsefulLife
-		if staleFor >= 0 && staleFor < swr {
+		// A request max-age that the response exceeds asks for validation in this exchange
+		// (RFC 9111 §5.2.1.1); stale-while-revalidate does not override it.
+		reqMaxAge, hasReqMaxAge := ccReq.MaxAge()
+		exceedsReqMaxAge := hasReqMaxAge && age >= reqMaxAge
+		if staleFor >= 0 && staleFor < swr && !exceedsReqMaxAge {
 			return r.handleStaleWhileRevalidate(
 				req,
 				stored,
